@@ -52,7 +52,7 @@ ASSUMPTIONS = [
     'whether or not an exception is raised',
 ]
 FLOORS = {
-    'quick': {'outcomes': 500, 'set:specificities': 20, 'set:shapes': 300, 'states': 300, 'transitions': 3000, 'validated': 3000},
+    'quick': {'outcomes': 500, 'set:specificities': 20, 'set:shapes': 300, 'states': 150, 'transitions': 10000, 'validated': 100000},
     'thorough': {'outcomes': 1000, 'set:specificities': 30, 'set:shapes': 1000, 'states': 1000, 'transitions': 50000, 'validated': 50000},
 }
 
@@ -404,6 +404,10 @@ def essential(sel, dev, attach, clause, symptom):
         if ess:
             return 'site=' + '+'.join(sorted(ref.site_label(sel, *d) for d in ess))
         if not _has(sel, (), attach, clause, symptom):
+            # no single deviation is necessary: each one that suffices alone is a witness of its own; name the first
+            alone = sorted(ref.site_label(sel, *d) for d in dev if _has(sel, [d], attach, clause, symptom))
+            if alone:
+                return 'site=' + alone[0]
             return 'site-any-of=' + '+'.join(sorted(ref.site_label(sel, *d) for d in dev))
     m = _minimise(sel, attach, clause, symptom)
     return 'canonical|' + ','.join(ref.kinds(m))
@@ -531,7 +535,13 @@ def _ops(tier, subject, length):
         ops.append(['text', lt])
         if subject != 'list':
             ops.append(['ruletext', lt])
+    # the same text operations with the library in its log-only error mode (the mode every parse runs in)
+    ops += [op + ['quiet'] for op in ops if op[0] in ('text', 'ruletext') or (op[0] in ('appendSelector', 'set') and op[-1] == 'text')]
     return ops
+
+
+def _base(op):
+    return op[:-1] if op[-1] == 'quiet' else op
 
 
 class _Live:
@@ -563,9 +573,12 @@ def _join(menu, members, sep):
 def _apply_real(live, op, menu):
     """-> 'ok' | 'dom:<Exc>' | 'exc:<site>' | 'timeout'"""
     guard.pristine()
+    quiet, op = op[-1] == 'quiet', _base(op)
     try:
         with guard.watchdog(WD):
             kind = op[0]
+            if quiet:
+                cssutils.log.raiseExceptions = False
             if kind in ('append', 'appendSelector', 'set'):
                 mi = op[1] if kind != 'set' else op[2]
                 form = 'text' if kind == 'append' else op[-1]
@@ -590,10 +603,13 @@ def _apply_real(live, op, menu):
         return 'dom:' + type(e).__name__
     except Exception as e:
         return guard.crash_site(e)
+    finally:
+        cssutils.log.raiseExceptions = True
     return 'ok'
 
 
 def _apply_ref(model, op, menu):
+    op = _base(op)
     kind = op[0]
     if kind in ('append', 'appendSelector'):
         return model.append(menu[op[1]][1])
@@ -619,7 +635,8 @@ def _observe(live):
 
 
 def _opname(op):
-    return op[0] + (':' + op[-1] if op[0] in ('appendSelector', 'set') else '')
+    b = _base(op)
+    return b[0] + (':' + b[-1] if b[0] in ('appendSelector', 'set') else '') + (':quiet' if b is not op else '')
 
 
 def _list_diff(want, got):
@@ -662,6 +679,7 @@ def _step(res, history, op, tier):
         return None
     res.validated += 1
     res.evaluations += 1
+    full_op, op = op, _base(op)
     want = list(model.entries)
     got = [e[0] for e in obs['entries']]
     ok = True
@@ -674,10 +692,10 @@ def _step(res, history, op, tier):
         clause = 'C16.list.order'
     res.clauses[clause] += 1
     if outcome == 'timeout' or outcome.startswith('exc:'):
-        res.violation(clause, f'{outcome}|op={_opname(op)}', case, 'DOMException or success', outcome)
+        res.violation(clause, f'{outcome}|op={_opname(full_op)}', case, 'DOMException or success', outcome)
         ok = False
     elif accepted and outcome != 'ok':
-        res.violation(clause, f'valid-operation-rejected:{outcome[4:]}|op={_opname(op)}', case, want, outcome)
+        res.violation(clause, f'valid-operation-rejected:{outcome[4:]}|op={_opname(full_op)}', case, want, outcome)
         ok = False
     if ok and got != want:
         if not accepted:
@@ -688,16 +706,16 @@ def _step(res, history, op, tier):
             sym = 'append-present|' + sym
         else:
             sym = 'list-differs|' + _list_diff(want, got)
-        res.violation(clause, f'{sym}|op={_opname(op)}', case, want, got, note=f'outcome of the operation: {outcome}')
+        res.violation(clause, f'{sym}|op={_opname(full_op)}', case, want, got, note=f'outcome of the operation: {outcome}')
         ok = False
     if ok:
         texts_ok = obs['text'] == ','.join(want) and obs['length'] == len(want) and (obs['ruletext'] is None or obs['ruletext'] == obs['text'])
         if not texts_ok:
-            res.violation(clause, f'list-observers-disagree|op={_opname(op)}', case, [','.join(want), len(want)], [obs['text'], obs['length'], obs['ruletext']])
+            res.violation(clause, f'list-observers-disagree|op={_opname(full_op)}', case, [','.join(want), len(want)], [obs['text'], obs['length'], obs['ruletext']])
             ok = False
         bad = [e for e in obs['entries'] if specs.get(e[0]) != e[1]]
         if bad:
-            res.violation('C16.specificity', f'list-entry|{_spec_symptom(specs.get(bad[0][0], [0] * 4), bad[0][1])}|op={_opname(op)}', case, specs.get(bad[0][0]), bad[0])
+            res.violation('C16.specificity', f'list-entry|{_spec_symptom(specs.get(bad[0][0], [0] * 4), bad[0][1])}|op={_opname(full_op)}', case, specs.get(bad[0][0]), bad[0])
             ok = False
     res.outcomes.add(h64((clause, outcome, got)))
     res.counters['list.' + ('accepted' if accepted else 'rejected') + '.' + ('raised' if outcome != 'ok' else 'silent')] += 1
@@ -771,8 +789,9 @@ def replay(case, tier, seed):
     else:
         hist = case['history']
         t = tier
-        used = [o[1] if o[0] != 'set' else o[2] for o in hist[1:] + ([case['op']] if case['op'] else []) if o[0] in ('append', 'appendSelector', 'set')]
-        used += [m for o in hist[1:] + ([case['op']] if case['op'] else []) if o[0] in ('text', 'ruletext') for m in o[1]]
+        allops = [_base(o) for o in hist[1:] + ([case['op']] if case['op'] else [])]
+        used = [o[1] if o[0] != 'set' else o[2] for o in allops if o[0] in ('append', 'appendSelector', 'set')]
+        used += [m for o in allops if o[0] in ('text', 'ruletext') for m in o[1]]
         if any(m >= len(MENU_Q) for m in used):
             t = 'thorough'
         if case['op'] is None:
@@ -813,6 +832,7 @@ def standalone(case, v):
         lines.append("rule = cssutils.parseString('a{}').cssRules[0]; cur = lambda: rule.selectorList")
     lines.append('def show(): print([s.selectorText for s in cur()])')
     for op in case['history'][1:] + ([case['op']] if case['op'] else []):
+        quiet, op = op[-1] == 'quiet', _base(op)
         kind = op[0]
         if kind in ('append', 'appendSelector', 'set'):
             mi = op[1] if kind != 'set' else op[2]
@@ -822,6 +842,8 @@ def standalone(case, v):
             call = f'cur().selectorText = {_join(menu, op[1], ",")!r}'
         else:
             call = f'rule.selectorText = {_join(menu, op[1], " , ")!r}'
-        lines.append(f'try:\n    {call}\nexcept Exception as e:\n    print("raised", type(e).__name__, e)\nshow()')
+        if quiet:
+            call = f'cssutils.log.raiseExceptions = False\n    {call}'
+        lines.append(f'try:\n    {call}\nexcept Exception as e:\n    print("raised", type(e).__name__, e)\ncssutils.log.raiseExceptions = True\nshow()')
     lines.append(f'# clause {v["clause"]}: expected {v["expected"]!r}, observed {v["observed"]!r}')
     return '\n'.join(lines) + '\n'
